@@ -105,6 +105,44 @@ type Duplex struct {
 	// (back-pressure) until then or until the call's context ends.
 	gmu  sync.Mutex
 	open chan struct{}
+	// silent: the client's end failed without the relay noticing (a network
+	// partition): the client's Close does not reach the server side
+	silent bool
+	// detached calls: the server side has its own context, so that the client's
+	// end can go away (FailSilently) without the relay noticing
+	cliCtx    context.Context
+	cliCancel context.CancelFunc
+}
+
+// NewDetachedDuplex is NewDuplex for a call whose server side does not see the
+// client's context end (only an explicit Cancel or a non-silent Close).
+func NewDetachedDuplex(ctx context.Context, name, id string, tap Tap) *Duplex {
+	d := NewDuplex(context.Background(), name, id, tap)
+	d.cliCtx, d.cliCancel = context.WithCancel(ctx)
+	return d
+}
+
+func (d *Duplex) cctx() context.Context {
+	if d.cliCtx != nil {
+		return d.cliCtx
+	}
+	return d.ctx
+}
+
+// FailSilently makes the client's Recv fail with err while the server side of
+// the call keeps running, unaware (its context is not cancelled and it is not
+// told about the client's Close).
+func (d *Duplex) FailSilently(err error) {
+	d.gmu.Lock()
+	d.silent = true
+	d.gmu.Unlock()
+	d.ToCli.Close(err)
+}
+
+func (d *Duplex) isSilent() bool {
+	d.gmu.Lock()
+	defer d.gmu.Unlock()
+	return d.silent
 }
 
 // StallFromStart makes the server's Sends on this call block until Resume.
@@ -167,7 +205,12 @@ func NewDuplex(ctx context.Context, name, id string, tap Tap) *Duplex {
 }
 
 // Cancel cancels the call's context (client went away).
-func (d *Duplex) Cancel() { d.cancel() }
+func (d *Duplex) Cancel() {
+	d.cancel()
+	if d.cliCancel != nil {
+		d.cliCancel()
+	}
+}
 
 // SrvSession is the server's view of a Session call.
 type SrvSession struct{ *Duplex }
@@ -241,14 +284,14 @@ func (c CliSession) Send(m *signaling.SessionRequest) error {
 	return c.ToSrv.Push(m.CloneVT())
 }
 func (c CliSession) Recv() (*signaling.SessionResponse, error) {
-	m, err := c.ToCli.Pop(c.ctx)
+	m, err := c.ToCli.Pop(c.cctx())
 	if err != nil {
 		return nil, err
 	}
 	return m.(*signaling.SessionResponse), nil
 }
 func (c CliSession) RecvTo(m *signaling.SessionResponse) error {
-	x, err := c.ToCli.Pop(c.ctx)
+	x, err := c.ToCli.Pop(c.cctx())
 	if err != nil {
 		return err
 	}
@@ -259,6 +302,12 @@ func (c CliSession) RecvTo(m *signaling.SessionResponse) error {
 	return m.UnmarshalVT(b)
 }
 func (c CliSession) Close() error {
+	if c.cliCancel != nil {
+		c.cliCancel()
+	}
+	if c.isSilent() {
+		return nil // partitioned: the relay does not learn about it
+	}
 	c.cancel()
 	c.ToSrv.Close(io.EOF)
 	return nil
@@ -270,14 +319,14 @@ var _ signaling.SRPCSignaling_SessionClient = CliSession{}
 type CliListen struct{ *Duplex }
 
 func (c CliListen) Recv() (*signaling.ListenResponse, error) {
-	m, err := c.ToCli.Pop(c.ctx)
+	m, err := c.ToCli.Pop(c.cctx())
 	if err != nil {
 		return nil, err
 	}
 	return m.(*signaling.ListenResponse), nil
 }
 func (c CliListen) RecvTo(m *signaling.ListenResponse) error {
-	x, err := c.ToCli.Pop(c.ctx)
+	x, err := c.ToCli.Pop(c.cctx())
 	if err != nil {
 		return err
 	}
@@ -370,6 +419,9 @@ type Relay struct {
 	Listens  []*Duplex
 	// FailNext makes the next n Session() attempts fail before reaching the server.
 	FailNext int
+	// DetachFirst: the first Session call gets a server side with its own
+	// context (needed for FailSilently)
+	DetachFirst bool
 }
 
 func (r *Relay) SRPCClient() srpc.Client { return nil }
@@ -382,7 +434,12 @@ func (r *Relay) Session(ctx context.Context) (signaling.SRPCSignaling_SessionCli
 		return nil, errors.New("sigfake: dial failed")
 	}
 	r.n++
-	d := NewDuplex(ctx, fmt.Sprintf("%s.s%d", r.Name, r.n), r.ID, r.Tap)
+	var d *Duplex
+	if r.DetachFirst && len(r.Sessions) == 0 {
+		d = NewDetachedDuplex(ctx, fmt.Sprintf("%s.s%d", r.Name, r.n), r.ID, r.Tap)
+	} else {
+		d = NewDuplex(ctx, fmt.Sprintf("%s.s%d", r.Name, r.n), r.ID, r.Tap)
+	}
 	r.Sessions = append(r.Sessions, d)
 	r.mu.Unlock()
 	r.Calls.RunSession(r.Srv, d, nil)
